@@ -66,7 +66,7 @@ def specAnswerer : Answerer where
   fields s := s.fields
   count s := numDocs s
   dict := dictEntries
-  contains s f t := (terms s f).contains t
+  contains s f t := !(postings s f t).isEmpty
   iter s f t e r fl ops :=
     let P := postings s f t
     let P := match r with
